@@ -31,16 +31,37 @@ package cron
 // Parsing (cronexpr behind Parser.Parse): ASSUMED deterministic in (spec, parser config); the hash id only
 // influences which instants an "H" field denotes, never whether parsing succeeds.
 //@ pure parsedExpr(spec *execution.CronSchedule, parser *Parser, hashID string) Expression
+// per line: whether a cron line parses depends on the line and on the parser's configuration (kind) only
+//@ pure pkind(p *Parser) Int
+//@ pure lineOK(kind Int, line string) bool
+//@ extern func Parser.Parse
+//@   params p, cronLine, hashID
+//@   ensures (result1 == nil) == lineOK(pkind(p), cronLine)
+//@   ensures result1 != nil ==> errclass(result1) == 701
+// the lines of a cron schedule (CronSchedule.GetExpressions): the single expression if set, else the list
+//@ pure allLinesOK(spec *execution.CronSchedule, kind Int) bool =
+//@     spec.Expression != "" ? lineOK(kind, spec.Expression) : (forall i int :: 0 <= i && i < len(spec.Expressions) ==> lineOK(kind, spec.Expressions[i]))
 //@ pure parseOK(spec *execution.CronSchedule, parser *Parser) bool
+// ASSUMED (read from the loop of NewExpressionFromCronSchedule, which stays an assumed contract because C01 names its
+// result): the schedule parses iff every one of its lines parses
+//@ axiom parse-is-linewise: forall spec *execution.CronSchedule, parser *Parser :: spec != nil ==> parseOK(spec, parser) == allLinesOK(spec, pkind(parser))
 
 //@ extern func NewExpressionFromCronSchedule
 //@   params spec, parser, hashID
 //@   ensures (result1 == nil) == parseOK(spec, parser)
+//@   ensures result1 != nil ==> errclass(result1) == 701
 //@   ensures result1 == nil ==> result0 != nil && result0 == parsedExpr(spec, parser, hashID)
 //@   ensures result1 != nil ==> result0 == nil
 
 // builds a Parser value from the dynamic config (cronexpr option plumbing, not modelled)
+// the parser's kind is determined by the four cron fields of the dynamic configuration
+//@ pure ckind(format string, hashNames bool, hashSeconds bool, hashFields bool) Int
+//@ pure kindOfCfg(cfg *configv1alpha1.CronExecutionConfig) Int = ckind(cfg.CronFormat, cfg.CronHashNames == nil || *cfg.CronHashNames,
+//@     cfg.CronHashSecondsByDefault != nil && *cfg.CronHashSecondsByDefault, cfg.CronHashFields == nil || *cfg.CronHashFields)
 //@ extern func NewParserFromConfig
 //@   params cfg
 //@   fresh result
-//@   ensures result != nil
+//@   ensures result != nil && pkind(result) == kindOfCfg(cfg)
+// what admission establishes for a cron schedule (C17), for the parser kind in force
+//@ pure cronAccepted(spec *execution.CronSchedule, kind Int) bool =
+//@     ((len(spec.Expression) > 0) != (len(spec.Expressions) > 0)) && allLinesOK(spec, kind) && (len(spec.Timezone) == 0 || tzOK(spec.Timezone))
